@@ -30,6 +30,7 @@ TECHNIQUE += '; termination of every eat entry (_eat_regex_list); fixpoint itera
 LEVEL_TEXT += ' Added clauses: comment-eating loops end on empty matches; deep evaluation of a constant ends.'
 TECHNIQUE += '; totality of the message properties over None and text'
 LEVEL_TEXT += ' Added clause: every failure message renders for what raise sites hand over (None included).'
+LEVEL_TEXT += " Added clauses (rounds 9-11): constant indexes into possibly empty values on the compile/parse path are guarded; memento renders for every text x line x column of its domain and points at the position given; pattern text is validated where it is produced; re.compile's ValueError is covered."
 TECHNIQUE += '; Model.expectingstr total over the number of expected elements'
 TECHNIQUE += '; constant index into a possibly empty value on the compile / parse path is guarded (C08.R17, who-may rule with a positive self-check)'
 TECHNIQUE += '; memento interpreted over texts x lines x columns: total, shows the given line, column and marker (R18)'
